@@ -108,10 +108,12 @@ func (m *vSyncer) Sync(ctx context.Context, start cid.Cid, sel ipld.Node) error 
 	}
 	var visited []cid.Cid
 	for i := p; i < len(m.chain); i++ {
+		// the start block is loaded directly and therefore always visited; the
+		// stop condition and the depth limit apply to links explored from it
 		if i > p && m.chain[i] == stop {
 			break // the selector stops before a link equal to the stop link
 		}
-		if limit.Mode() == selector.RecursionLimit_Depth && int64(len(visited)) >= limit.Depth() {
+		if i > p && limit.Mode() == selector.RecursionLimit_Depth && int64(len(visited)) >= limit.Depth() {
 			break
 		}
 		if m.failSync == m.syncs && m.failAt == len(visited)+1 {
@@ -146,6 +148,10 @@ type vSub struct {
 }
 
 func newVSub(chain []cid.Cid, adsDepthLimit, firstSyncDepth, segDepthLimit int64, withHook bool) *vSub {
+	return newVSubEnts(chain, adsDepthLimit, firstSyncDepth, segDepthLimit, 0, withHook)
+}
+
+func newVSubEnts(chain []cid.Cid, adsDepthLimit, firstSyncDepth, segDepthLimit, entriesDepthLimit int64, withHook bool) *vSub {
 	v := &vSub{}
 	mu, scoped, dispatch := wrapBlockHook()
 	ssb := builder.NewSelectorSpecBuilder(basicnode.Prototype.Any)
@@ -166,6 +172,12 @@ func newVSub(chain []cid.Cid, adsDepthLimit, firstSyncDepth, segDepthLimit int64
 		firstSyncDepth:       firstSyncDepth,
 		segDepthLimit:        segDepthLimit,
 		adsSelectorSeq:       ssb.ExploreAll(ssb.ExploreRecursiveEdge()).Node(),
+		selectorOne:          ssb.ExploreRecursive(selector.RecursionLimitDepth(0), ssb.ExploreAll(ssb.ExploreRecursiveEdge())).Node(),
+		selectorAll:          ssb.ExploreRecursive(selector.RecursionLimitNone(), ssb.ExploreAll(ssb.ExploreRecursiveEdge())).Node(),
+		selectorEnts: ssb.ExploreRecursive(recursionLimit(entriesDepthLimit),
+			ssb.ExploreFields(func(efsb builder.ExploreFieldsSpecBuilder) {
+				efsb.Insert("Next", ssb.ExploreRecursiveEdge())
+			})).Node(),
 	}
 	if withHook {
 		s.generalBlockHook = func(p peer.ID, c cid.Cid, a SegmentSyncActions) {
